@@ -485,6 +485,18 @@ double BasicPLApproximator<FuncCon>::maxErrorRelAbove1(
                      "PLApprox maxErrRel(): preim(-1.0) outside");
     points.push_back( { -1.0, y0 + (x_preim_1-x0) * slope } );
   }
+  /// Same for a function decreasing through +-1
+  /// (the preimage can coincide with an endpoint up to rounding)
+  if (f0>1.0 && f1<1.0) {
+    auto x_preim_1 = inverse_with_check(1.0);
+    if (x0<x_preim_1 && x1>x_preim_1)
+      points.push_back( { 1.0, y0 + (x_preim_1-x0) * slope } );
+  }
+  if (f0>-1.0 && f1<-1.0) {
+    auto x_preim_1 = inverse_with_check(-1.0);
+    if (x0<x_preim_1 && x1>x_preim_1)
+      points.push_back( { -1.0, y0 + (x_preim_1-x0) * slope } );
+  }
   /// Check rel / abs errors in these points
   double errMax=0.0;
   for (const auto& pt: points) {
